@@ -97,7 +97,7 @@ def check_orbit(ctx, label, orb, mu, n_phase, displacement, method, order):
                 cond = max(abs(R["lam_u"]), 1.0)
                 pos = np.linalg.norm(dvec[:3])
                 ctx.stat("|pos displacement|/configured - 1", abs(pos / displacement - 1))
-                ctx.check(abs(pos / displacement - 1) <= 1e-3 + 1e-9 * cond / displacement,
+                ctx.check(abs(pos / displacement - 1) <= 1e-3 + 2e-12 * cond / displacement,
                           "1-2:seed is displaced from an orbit point by the configured distance (position norm)",
                           lambda: {**wit(), "pos_norm": pos})
                 # (3) direction = true Floquet direction (line), (4) side
@@ -105,7 +105,8 @@ def check_orbit(ctx, label, orb, mu, n_phase, displacement, method, order):
                 a_line = min(a, np.pi - a)
                 a_other = angle(dvec, du if stable else ds)
                 a_other = min(a_other, np.pi - a_other)
-                tol_ang = 1e-4 + 2e-9 * cond / displacement
+                # base-point mismatch (library vs reference orbit point, ~1e-12 x growth) seen from the displaced seed; measured 2e-7 rad
+                tol_ang = 1e-4 + 2e-12 * cond / displacement
                 ctx.stat(f"angle_to_true_direction[{'stable' if stable else 'unstable'}]", a_line)
                 mech = MECH_STABLE if (stable and a_line > tol_ang and 0.02 < a_line < 0.6) else None
                 ok = ctx.check(a_line <= tol_ang, "3:seed offset is along the true Floquet direction of its branch",
